@@ -49,6 +49,18 @@ Proof.
 Qed.
 Print Assumptions C03_skip_candidate_allowed.
 
+(* holes marked as named bind only named nodes, from ANY environment: a variable that is already bound (a
+   back-reference) does not bypass the guard — the clause the seeded change C03-m7 broke *)
+Theorem C03_named_hole_any_env : forall src name c e e',
+  match_leaf_meta_var src (Capture name true) c e = Some e' -> named c = true.
+Proof. exact AlignProofs.named_hole_binds_named_any_env. Qed.
+Print Assumptions C03_named_hole_any_env.
+
+Theorem C03_named_dropped_hole : forall src c e e',
+  match_leaf_meta_var src (Dropped true) c e = Some e' -> named c = true.
+Proof. exact AlignProofs.named_dropped_hole_binds_named. Qed.
+Print Assumptions C03_named_dropped_hole.
+
 (* the case behind fix fc3a016: nothing aligned => no prefix length is reported *)
 Example C03_len_nothing_aligned_ex : True.
 Proof. pose proof AlignProofs.C03_len_nothing_aligned. exact I. Qed.
